@@ -1,9 +1,14 @@
-"""C04 — timestamps are interpreted as the instant they denote (PARTIAL: the regex engine is not modelled).
+"""C04 — timestamps are interpreted as the instant they denote (PARTIAL: the regex crate is modelled and tied,
+not verified; the universal statement covers 168 of 173 rows on the renderings their plan admits).
 
 A. Coq: Props/C04.v (calendar arithmetic, fraction padding, zone/month/pattern table obligations on the
-   tables REGENERATED from /repo, normalise_denotes, epoch_refuted).
-B. in-process `bytes_to_regex_to_datetime` (harness c04, all rows in table order, each on its own slice)
-   vs the Coq model `normalise` + `parse_buffer` (vm_compute) on the SAME captured groups.
+   tables REGENERATED from /repo, normalise_denotes, epoch_refuted; regex stage: totality, soundness,
+   symbolic-engine soundness, documented examples, coverage, universal captures/instant theorems).
+B. (1) the regex crate's captures (harness c04r) vs the Coq matcher Model/Regex.v on the regenerated
+   pattern table (checks/c04r_util.regex_stage) + engine conformance patterns;
+   (2) in-process `bytes_to_regex_to_datetime` (harness c04, all rows in table order, each on its own slice)
+   vs Model/RegexDt.dated_model / Corr/C04r.first_dated (c04r_util.pipeline_stage);
+   (3) the same call vs the Coq model `normalise` + `parse_buffer` (vm_compute) on the SAME captured groups.
 C. failing-input search: the real binary on files of generated lines, one documented notation per file:
    `s4 --color never -u -d '%Y%m%dT%H%M%S%.9f%z' --tz-offset=...` must print, before every line, the
    instant the text denotes.  Spec = python civil arithmetic (calendar.timegm) cross-checked, case by
@@ -15,6 +20,7 @@ import calendar, json, os, re, time
 from concurrent.futures import ThreadPoolExecutor
 import vlib
 from vlib import COQ, CACHE
+import c04r_util
 
 PROP_FILE = "Props/C04.v"
 MONTHS = ["january", "february", "march", "april", "may", "june", "july", "august", "september", "october", "november", "december"]
@@ -373,10 +379,14 @@ def run(ctx):
     quick = ctx.quick()
     lines_per_file = 8 if quick else 60
     files_per_tpl = 1 if quick else 6
-    vlib.proof_stage(ctx, PROP_FILE, ["datetime"], extra_targets=["Corr/C04.vo"])
+    vlib.proof_stage(ctx, PROP_FILE, ["datetime", "regexes"], extra_targets=["Corr/C04.vo", "Corr/C04r.vo"])
     ok, log = vlib.build_harness("c04")
     if not ok:
         ctx.obligation_broken("build", "harness c04", log)
+        return ctx.finish()
+    ok, log = vlib.build_harness("c04r")
+    if not ok:
+        ctx.obligation_broken("build", "harness c04r", log)
         return ctx.finish()
     ok, log = vlib.build_s4()
     if not ok:
@@ -458,11 +468,17 @@ def run(ctx):
     if outl is not None and len(outl) == len(blines):
         for (f, c), o in zip(bmeta, outl):
             f.setdefault("first_rows", set()).add(o.split("\t")[0])
+            c["first_row"] = o.split("\t")[0]
         if quick and len(blines) > 6000:
             idx = sorted(rng.sample(range(len(blines)), 6000))
             blines = [blines[i] for i in idx]
             bmeta = [bmeta[i] for i in idx]
             outl = [outl[i] for i in idx]
+    # ---- B (regex stage): the regex crate's captures vs the Coq matcher on the regenerated pattern table
+    rx_cov = c04r_util.regex_stage(ctx, tables, [(tpls[f["tpl"]]["row"], c["line"]) for f in files for c in f["cases"]], quick)
+    if outl is not None and len(outl) == len(blines):
+        rx_cov.update(c04r_util.pipeline_stage(ctx, blines, outl, quick))
+    rx_cov.update(c04r_util.domain_stage(ctx, [(tpls[f["tpl"]]["row"], c["line"]) for f in files for c in f["cases"]], quick))
     # ---- C: the binary
     def run_file(f):
         p = os.path.join(d, f["name"])
@@ -524,7 +540,10 @@ def run(ctx):
                     cls.append("documented_example_claimed_by_earlier_less_specific_row")
                 if ends_line(t):
                     cls.append("timestamp_at_end_of_line")
-                if len(f.get("first_rows", ())) > 1:
+                # F13 is about lines that SOME row claims while the file is locked to another row: a line no row
+                # matches at all ("NONE") is not in that class (a regex that lost part of its notation must
+                # be reported, not absorbed)
+                if len(set(f.get("first_rows", ())) - {"NONE"}) > 1 and c.get("first_row", "NONE") != "NONE":
                     cls.append("notation_lines_split_between_table_rows")
                 key = "%d:%s" % (t["row"], "+".join(cls) or "UNCLASSIFIED")
                 fail_cls[key] = fail_cls.get(key, 0) + 1
@@ -555,6 +574,10 @@ def run(ctx):
             yo = blines[i].split("\t")[1]
             rows.append((i, '(%s%%N, [%s], %s, (%s)%%Z, Some (%s)%%Z)' % (p[0], caps, "None" if yo == "-" else "Some (%s)%%Z" % yo, blines[i].split("\t")[2], p[1])))
         hdr = vlib.COQ_PRINT_HDR + "From Coq Require Import String List NArith ZArith.\nImport ListNotations.\nFrom S4.Corr Require Import C04.\nOpen Scope string_scope.\n"
+        if quick and len(rows) > 2500:
+            # the same lines also go through the whole pipeline model (regex + normalise + parse) above;
+            # this run isolates normalise + parse on the captures the crate produced
+            rows = rng.sample(rows, 2500)
         shards = vlib.shard(rows, vlib.NCPU)
         texts = [hdr + "Definition cases : list (N * list (option string) * option Z * Z * option Z) := [\n%s\n].\nEval vm_compute in (model_bad cases).\n" % ";\n".join(r[1] for r in sh_) for sh_ in shards]
         tb = time.time()
@@ -612,9 +635,10 @@ def run(ctx):
         files=len(files), kind_histogram=hist_kind, fallback_zone_histogram=hist_zone,
         fraction_digits_histogram={str(k): v for k, v in sorted(hist_frac.items())}, zone_spelling_histogram=hist_tz,
         spec_failures=fail_lines, spec_failures_by_row_and_class=fail_cls, spec_failure_examples=fail_examples[:60], spec_failures_by_table_row={str(k): v for k, v in sorted(fail_rows.items())}, model_cases=len(blines), model_disagreements=len(model_dis), harness_unmatched=unmatched,
-        harness_panics=panics, oracle_cases=len(srows), oracle_disagreements=oracle_dis)
+        harness_panics=panics, oracle_cases=len(srows), oracle_disagreements=oracle_dis, **rx_cov)
     ctx.assumptions += [
-        "PARTIAL: the regex crate (capturing, leftmost-first alternation, pattern competition in block-zero analysis) is not modelled; it is exercised by runs B and C only",
+        "PARTIAL: the regex crate is MODELLED (Model/Regex.v: capturing, leftmost-first priority, Unicode mode) and the model is tied to the crate by run B on the project's own patterns; the crate itself is not verified, and pattern competition in block-zero analysis is exercised by run C only (known findings F13/F14/F16)",
+        "tools/gen/regexes.py parses the compiled pattern strings as regex-syntax does for the constructs the project uses (ScrapeError otherwise); the parser is tied by the same run B and by the conformance patterns",
         "chrono 0.4.40 parses the fixed-shape normalised buffer as Model/Normalise.parse_buffer says (hand transcription of format/parse.rs, scan.rs, parsed.rs), tied by run B",
         "notations = the documented example lines of the DTPD! entries; a field is rendered in the style of the example (padding, abbreviation/full name, dot, zone form)",
         "Spec/TzRef.v (frozen) is the ground truth of what each zone abbreviation denotes; year-less notations are C11's subject and only take part in run B",
